@@ -910,6 +910,11 @@ class PyCdlib:
         splitpath = utils.split_path(joliet_path)
         name = splitpath.pop()
 
+        # A path that names the root directory has no last component; an empty
+        # identifier cannot be recorded for an entry.
+        if not name:
+            raise pycdlibexception.PyCdlibInvalidInput('Joliet names must be at least 1 character long')
+
         # The limit is 64 16-bit characters of the recorded (UCS-2/UTF-16) name,
         # not 64 bytes of the UTF-8 form that the path is passed around in.
         joliet_name = name.decode('utf-8').encode('utf-16_be')
@@ -934,6 +939,12 @@ class PyCdlib:
         """
         splitpath = utils.split_path(udf_path)
         name = splitpath.pop()
+
+        # A path that names the root directory has no last component; an empty
+        # File Identifier cannot be recorded for an entry.
+        if not name:
+            raise pycdlibexception.PyCdlibInvalidInput('UDF names must be at least 1 character long')
+
         (parent_ident_unused, parent) = self._find_udf_record(b'/' + b'/'.join(splitpath))
 
         return (name.decode('utf-8').encode('utf-8'), parent)
